@@ -70,14 +70,23 @@ def gen_case(rng, ctx):
             scls, sch = "S1", [list(v) for v in ref.PRESETS["unifying"]]
     elif kind == "wide":
         # 129-140 elements, near-unanimous, with ties sitting exactly at positions 126-128 (limits of narrow integer types)
-        n = rng.choice([129, 130, 131, 140])
+        cut = rng.choice([126, 127, 127, 127, 128])
+        tail = rng.choice([2, 2, 3])
+        extra = rng.choice([0, 0, 0, 1, 5])          # 0: the tied bucket is the last one (highest position == cut)
+        n = cut + tail + extra
         names = list(range(n))
         rng.shuffle(names)
-        cut = min(rng.choice([126, 127, 127, 128]), n - 2)
-        base = [[e] for e in names[:cut]] + [names[cut:cut + 2]] + [[e] for e in names[cut + 2:]]
+        tied = names[cut:cut + tail]
+        rest = [[e] for e in names[cut + tail:]]
+        base = [[e] for e in names[:cut]] + [list(tied)] + rest
         ds = [[list(b) for b in base] for _ in range(2)]
-        third = [[e] for e in names[:cut]] + [[names[cut]], [names[cut + 1]]] + [[e] for e in names[cut + 2:]]
-        ds.append(third)
+        if rng.random() < 0.6:
+            # the dissenting ranking orders the pair earlier and ties the two displaced elements at the end, so that no
+            # position exceeds `cut` in any ranking
+            ds.append([[e] for e in names[:cut - 2]] + [[e] for e in tied[:2]] + [list(names[cut - 2:cut]) + list(tied[2:])]
+                      + rest)
+        else:
+            ds.append([[e] for e in names[:cut]] + [[e] for e in tied] + rest)
         if rng.random() < 0.5:
             ds.append(gen.perturb(rng, base, 2))
         scls, sch = gen.scheme(rng, "S1 S1 S11 S13")
